@@ -765,6 +765,49 @@ func raceC16(seed uint64, seconds int) {
 	}
 }
 
+// raceC20: pooled contexts under concurrency — every goroutine takes a context, fills it, reads it back and returns it; what
+// it reads is what it wrote (a context is owned by one request from NewContext to Destroy; nothing touches it after Put).
+func raceC20(seed uint64, seconds int) {
+	rep := &reporter{}
+	var stop atomic.Bool
+	var wg sync.WaitGroup
+	var n atomic.Int64
+	for k := 0; k < 8; k++ {
+		wg.Add(1)
+		go func(k int) {
+			defer wg.Done()
+			for i := 0; !stop.Load(); i++ {
+				c := types.NewContext()
+				if c.Count() != 0 {
+					rep.badf("params: a context from NewContext holds %d parameters", c.Count())
+				}
+				key, val := "k"+strconv.Itoa(k), strconv.Itoa(k*1000003+i)
+				c.Set(key, val)
+				c.Set("common", val)
+				c.Path = "/p/" + val
+				if got, ok := c.Get(key); !ok || got != val || c.Count() != 2 || c.MustString("common", "") != val {
+					rep.badf("params: wrote %s=%s, read %q (found %v), count %d", key, val, got, ok, c.Count())
+				}
+				if i%64 == 0 {
+					for j := 0; j < 31; j++ { // more than the pool keeps
+						c.Set("x"+strconv.Itoa(j), val)
+					}
+				}
+				c.Destroy()
+				n.Add(1)
+			}
+		}(k)
+	}
+	time.Sleep(time.Duration(seconds) * time.Second)
+	stop.Store(true)
+	wg.Wait()
+	st, _ := json.Marshal(map[string]int64{"contexts": n.Load(), "bad": int64(rep.bad)})
+	fmt.Printf("STATS %s\n", st)
+	if rep.bad > 0 {
+		os.Exit(1)
+	}
+}
+
 func runRace(args []string) {
 	if len(args) < 3 {
 		fmt.Fprintln(os.Stderr, "usage: race C06|C07 <seed> <seconds>")
@@ -781,6 +824,8 @@ func runRace(args []string) {
 		raceC11(seed, secs)
 	case "C16":
 		raceC16(seed, secs)
+	case "C20":
+		raceC20(seed, secs)
 	default:
 		os.Exit(2)
 	}
